@@ -353,7 +353,7 @@ class Explore:
                                               "schedule": bad["schedule"]},
                                     "expected": f"answers and contents of some serial order: {bad['serial']}",
                                     "observed": f"answers {bad['answers']}, contents {bad['contents']}"}
-                return {"failing": False, "tried": total, "known": ["c05:" + x for x in sorted(set(known_seen))],
+            return {"failing": False, "tried": total, "known": ["c05:" + x for x in sorted(set(known_seen))],
                     "bound": f"6 scenarios of 2-3 operations x (separate | shared store object) x (tree-git, bare-git), all schedules with <= {max_pre} preemption(s) over the yield points (<= {limit} per case)"}
         finally:
             shutil.rmtree(top, ignore_errors=True)
